@@ -1,94 +1,9 @@
-(* C40 -- the generated REPL code against the abstract machine, by computation:
-   (1) every single input from a table of value shapes / exception classes, from every abstract
-       start state of a table, (2) every session of up to three inputs over a small alphabet.
-   The run is [run_input] on the generated code (Gen/StateReplTerm.v); the reference is [step]. *)
+(* C40 -- printable traces of sessions run on the generated code (for the correspondence with the
+   real REPL), and a finite cross-check of the generated code against the abstract machine by plain
+   computation (the theorem for all values is ReplLift.v; this table is what names a failing
+   configuration when that proof breaks). *)
 From HyV Require Import State.Repl.
 
-Definition t1 : val := VRef 11.
-Definition t2 : val := VRef 12.
-Definition t3 : val := VRef 13.
-Definition tv : val := VRef 20.
-Definition old_e : val := VExc "NameError" 9.
-
-Definition rstate_eqb (x y : rstate) : bool :=
-  val_eqb (r_last x) (r_last y) && Bool.eqb (r_print x) (r_print y)
-  && val_eqb (r_1 x) (r_1 y) && val_eqb (r_2 x) (r_2 y) && val_eqb (r_3 x) (r_3 y)
-  && match r_e x, r_e y with
-     | Some p, Some q => val_eqb p q
-     | None, None => true
-     | _, _ => false
-     end.
-
-(* start states: last_value None / a value, print flag, an earlier *e or none, a stale _hy_exc_info or none *)
-Definition start_heaps : list (heap * rstate) :=
-  flat_map (fun lv => flat_map (fun pf => flat_map (fun e => map (fun info =>
-    let rest := ((match e with Some x => [(ke, x)] | None => [] end)
-                ++ (if info : bool then [(kinfo, VTup [VGlobal "type(exc)"; old_e; VGlobal "tb"])] else [])
-                ++ [(VStr "user_var", VInt 7)])%list in
-    ([(self_id, repl_obj lv pf); (loc_id, repl_locals t1 t2 t3 rest); (50%N, OOpaque)],
-     {| r_last := lv; r_print := pf; r_1 := t1; r_2 := t2; r_3 := t3; r_e := e |}))
-    [false; true]) [None; Some old_e]) [true; false]) [VNone; VRef 10].
-
-Definition exc_classes : list string :=
-  ["LexException"; "PrematureEndOfInput"; "HySyntaxError"; "HyMacroExpansionError"; "HyRequireError";
-   "HyTypeError"; "HyEvalError"; "HyCompileError"; "HyLanguageError"; "ValueError"; "OverflowError";
-   "SyntaxError"; "ZeroDivisionError"; "NameError"; "TypeError"; "RecursionError";
-   "SystemExit"; "KeyboardInterrupt"; "GeneratorExit"; "UserDefinedError"].
-
-Definition out_none : out_script := fun _ => None.
-Definition out_fail (y : val) : out_script := fun v => if val_eqb v tv then Some y else None.
-
-Definition single_inputs : list (input * out_script) :=
-  ([(IIncomplete, out_none); (IValue VNone, out_none); (IValue tv, out_none)]
-  ++ map (fun c => (IValue tv, out_fail (VExc c 5))) exc_classes
-  ++ map (fun c => (ICompileError (VExc c 6), out_none)) exc_classes
-  ++ flat_map (fun c => [(IRunError (VExc c 7) true, out_none); (IRunError (VExc c 7) false, out_none)]) exc_classes)%list.
-
-Definition check_one (hr : heap * rstate) (io : input * out_script) : bool :=
-  let '(h, r) := hr in
-  let '(inp, out) := io in
-  let '(r', ret) := step out inp r in
-  match run_input [inp] out 0 (h, []) with
-  | EOk v (h', _) =>
-      match ret, observe h' with
-      | Some b, Some o => val_eqb v (VBool b) && rstate_eqb o r'
-      | _, _ => false
-      end
-  | EExc _ (h', _) =>
-      match ret, observe h' with
-      | None, Some o => rstate_eqb o r'
-      | _, _ => false
-      end
-  | _ => false
-  end.
-
-Definition sweep_single : bool := forallb (fun hr => forallb (check_one hr) single_inputs) start_heaps.
-
-(* sessions: the generated code, input after input on its own resulting heap, against run_abstract *)
-Definition alphabet : list input :=
-  [IIncomplete; IValue VNone; IValue tv; IValue (VRef 21);
-   ICompileError (VExc "LexException" 6); ICompileError (VExc "HyMacroExpansionError" 6);
-   IRunError (VExc "ZeroDivisionError" 7) false; IRunError (VExc "NameError" 8) true;
-   IRunError (VExc "SystemExit" 7) false].
-
-Fixpoint sessions (n : nat) : list (list input) :=
-  match n with
-  | O => [[]]
-  | S k => [] :: flat_map (fun i => map (cons i) (sessions k)) alphabet
-  end.
-
-Definition check_session (inputs : list input) : bool :=
-  match run_session inputs out_none with
-  | Some (h, _) => match observe h with
-                   | Some o => rstate_eqb o (run_abstract out_none inputs initial)
-                   | None => false
-                   end
-  | None => false
-  end.
-
-Definition sweep_sessions (n : nat) : bool := forallb check_session (sessions n).
-
-(* ---- printable traces, for the correspondence with the real REPL *)
 Definition vcode (v : val) : Z :=
   match v with
   | VNone => 0%Z
@@ -97,11 +12,11 @@ Definition vcode (v : val) : Z :=
   | VBool true => 3%Z | VBool false => 4%Z
   | _ => (-1)%Z
   end.
-Definition xcode (v : option val) : string * Z :=
+Definition xcode (v : val) : string * Z :=
   match v with
-  | Some (VExc c n) => (c, Z.of_N n)
-  | Some _ => ("?", 0%Z)
-  | None => ("", 0%Z)
+  | VExc c n => (c, Z.of_N n)
+  | VNone => ("", 0%Z)
+  | _ => ("?", 0%Z)
   end.
 Definition obs_code (h : heap) :=
   match observe h with
@@ -109,16 +24,50 @@ Definition obs_code (h : heap) :=
   | None => ((-9)%Z, false, 0%Z, 0%Z, 0%Z, ("unobservable", 0%Z))
   end.
 (* per input: ("ok", returned value) or ("exc", class), and the observable state afterwards *)
-Fixpoint session_trace (inputs : list input) (out : out_script) (j : nat) (k : nat) (s : st) :=
-  match k with
-  | O => []
-  | S k' =>
-      match run_input inputs out (Z.of_nat j) s with
-      | EOk v s1 => ("ok", vcode v, "", obs_code (fst s1)) :: session_trace inputs out (S j) k' s1
-      | EExc x s1 => ("exc", 0%Z, fst (xcode (Some x)), obs_code (fst s1)) :: session_trace inputs out (S j) k' s1
+Fixpoint session_trace (out : out_script) (inputs : list input) (s : st) :=
+  match inputs with
+  | [] => []
+  | inp :: r =>
+      match run1 table inp out s with
+      | EOk v s1 => ("ok", vcode v, "", obs_code (fst s1)) :: session_trace out r s1
+      | EExc x s1 => ("exc", 0%Z, fst (xcode x), obs_code (fst s1)) :: session_trace out r s1
       | ETimeout => [("timeout", 0%Z, "", obs_code [])]
       | EStuck m => [("stuck", 0%Z, m, obs_code [])]
       end
   end.
-Definition trace_of (inputs : list input) (out : out_script) :=
-  session_trace inputs out 0 (List.length inputs) (initial_heap, []).
+Definition trace_of (inputs : list input) (out : out_script) := session_trace out inputs (initial_heap, []).
+
+(* ---- the finite cross-check *)
+Definition rstate_eqb (x y : rstate) : bool :=
+  val_eqb (r_last x) (r_last y) && Bool.eqb (r_print x) (r_print y)
+  && val_eqb (r_1 x) (r_1 y) && val_eqb (r_2 x) (r_2 y) && val_eqb (r_3 x) (r_3 y) && val_eqb (r_e x) (r_e y).
+
+Definition tv : val := VRef 20.
+Definition exc_classes : list string :=
+  ["LexException"; "PrematureEndOfInput"; "HySyntaxError"; "HyMacroExpansionError"; "HyRequireError";
+   "HyTypeError"; "HyEvalError"; "HyCompileError"; "HyLanguageError"; "ValueError"; "OverflowError";
+   "SyntaxError"; "ZeroDivisionError"; "NameError"; "TypeError"; "RecursionError";
+   "SystemExit"; "KeyboardInterrupt"; "GeneratorExit"; "UserDefinedError"].
+Definition out_none : out_script := fun _ => None.
+Definition out_fail (y : val) : out_script := fun v => if val_eqb v tv then Some y else None.
+
+Definition alphabet : list (input * out_script) :=
+  ([(IIncomplete, out_none); (IValue VNone, out_none); (IValue tv, out_none); (IValue (VRef 21), out_none)]
+  ++ map (fun c => (IValue tv, out_fail (VExc c 5))) exc_classes
+  ++ map (fun c => (ICompileError (VExc c 6), out_none)) exc_classes
+  ++ flat_map (fun c => [(IRunError (VExc c 7) true, out_none); (IRunError (VExc c 7) false, out_none)]) exc_classes)%list.
+
+Definition check_session (out : out_script) (inputs : list input) : bool :=
+  match run_inputs table out inputs (initial_heap, []) with
+  | Some (h, _) => match observe h with
+                   | Some o => rstate_eqb o (run_abstract table out inputs initial)
+                   | None => false
+                   end
+  | None => false
+  end.
+
+(* every pair of letters, after a fixed two-input prefix that fills the slots *)
+Definition sweep_pairs : bool :=
+  forallb (fun p => forallb (fun q =>
+    check_session (fun v => match snd p v with Some y => Some y | None => snd q v end)
+                  [IValue (VRef 11); IValue (VRef 12); fst p; fst q]) alphabet) alphabet.
